@@ -282,6 +282,10 @@ def h_sequential(sym):
         args_dict = {}
     else:
         args_dict = make_args(sym, uris, [sym.choice(f'len{i}', 3) for i in range(n)])
+        if n >= 2 and sbool(sym, 'dict_reversed'):
+            # the argument dictionary is keyed by URI; its own key order is irrelevant to the order of execution
+            args_dict = dict(reversed(list(args_dict.items())))
+            sym.goal('dict-order-differs')
     env = Env(sym)
     env.install()
     try:
@@ -359,6 +363,42 @@ def h_parallel(sym):
         sym.goal('finished-before-join')
     if any(fails):
         sym.goal('some-failed')
+
+
+def h_twice(sym):
+    """Two swarm-wide calls on the SAME Swarm object: the outcome of the second depends on the second only (raises iff one of ITS
+    actions raised), each call runs every action once."""
+    n = sym.B['size']
+    uris = URIS[:n]
+    fails1 = [sbool(sym, f'first_fail{i}') for i in range(n)]
+    fails2 = [sbool(sym, f'second_fail{i}') for i in range(n)]
+    env = Env(sym)
+    env.install()
+    outcomes = []
+    try:
+        swarm = Swarm(uris, factory=Factory(env, uris, lambda i, uri: FakeSCF(env, i, uri)))
+        for fails in (fails1, fails2):
+            before = len(env.calls)
+            action = make_action(env, fails)
+            try:
+                swarm.parallel_safe(action)
+                outcomes.append(None)
+            except Exception as e:
+                outcomes.append(e)
+            assert env.all_bodies_finished(), 'returned while a member thread had not finished'
+            now = env.calls[before:]
+            assert sorted(c[0] for c in now) == list(range(n)), 'each action must run exactly once per call'
+    finally:
+        env.restore()
+    for fails, out in zip((fails1, fails2), outcomes):
+        if any(fails):
+            assert out is not None, 'parallel_safe did not raise although an action raised'
+        else:
+            assert out is None, f'parallel_safe raised although none of its actions raised: {type(out).__name__}'
+    if any(fails1) and not any(fails2):
+        sym.goal('clean-after-failed')
+    if any(fails2):
+        sym.goal('failed-second')
 
 
 def _open(swarm, ctx):
@@ -513,6 +553,8 @@ def h_open_scf(sym):
 _PG = ('clean', 'raised', 'two-failed', 'first-ok-later-failed', 'reordered', 'finished-before-join')
 _OG = ('opened', 'second-open-refused', 'open-failed', 'opened-link-closed-again')
 HARNESSES = [
+    Harness('twice', h_twice, quick=dict(size=2), thorough=dict(size=3), goals=('clean-after-failed', 'failed-second'), symbolic=False,
+            timeout=(300, 900)),
     Harness('sequential', h_sequential, quick=dict(size=3), thorough=dict(size=4), timeout=(240, 1500),
             goals=('several', 'unsorted-uris', 'args', 'noargs')),
     Harness('parallel_safe', h_parallel, quick=dict(size=3, api='parallel_safe'), thorough=dict(size=4, api='parallel_safe'),
